@@ -73,7 +73,8 @@ pub fn one_read<R: Read>(reader: &mut R, sz: usize, buf: &mut Vec<u8>, hist: &mu
         buf.resize(sz, 0);
     }
     // poison the buffer so bytes "delivered" without being written are visible
-    for b in buf[..sz].iter_mut() {
+    // (only the first 4 KiB: re-filling a 1 MiB buffer for every one-byte delivery dominates the run time otherwise)
+    for b in buf[..sz.min(4096)].iter_mut() {
         *b = 0xA5;
     }
     match reader.read(&mut buf[..sz]) {
@@ -112,6 +113,8 @@ pub enum Consumed {
     Helper(Result<Vec<u8>, String>),
     /// text helper returned Ok(string)
     Text(Result<String, String>),
+    /// json() returned
+    Json(Result<serde_json::Value, String>),
 }
 
 /// Consume the response according to the plan; `extra` = further reads after EOF/error (Sizes/Split only).
@@ -147,6 +150,7 @@ pub fn consume(resp: Response, plan: &ReadPlan, extra: &[usize], payload_len: us
             }
         }
         ReadPlan::TextUtf8 => Consumed::Text(resp.text_utf8().map_err(|e| format!("{e:?}"))),
+        ReadPlan::Json => Consumed::Json(resp.json::<serde_json::Value>().map_err(|e| format!("{e:?}"))),
     }
 }
 
